@@ -314,3 +314,87 @@ pub fn c04_histories(out: &str, thorough: bool, seed: u64) {
     let mut fo = fs::File::create(out).expect("out");
     writeln!(fo, "{}", res).unwrap();
 }
+
+/// C08, last sentence: every supported group, combined with any shape of well-defined area,
+/// starts from a valid state: a defined finite score, every parameter inside its declared range.
+pub fn initial_states(out: &str) {
+    use packing::traits::State;
+    use packing::{LJShape2, LineShape, MolecularShape2, PackedState, PotentialState};
+    std::panic::set_hook(Box::new(|_| {}));
+    let mut checked = 0usize;
+    let mut failures: Vec<Value> = vec![];
+    let mut judge = |desc: String, gname: &str, j: Option<Value>, score: Option<Option<f64>>| {
+        checked += 1;
+        let fam = family_of(gname);
+        let ok_score = matches!(score, Some(Some(s)) if s.is_finite());
+        let mut in_range = false;
+        if let Some(j) = &j {
+            let v = crate::states::full_vector(j, fam);
+            let b = crate::states::declared_bounds(j, fam);
+            in_range = v.iter().zip(b.iter()).all(|(x, (lo, hi))| *x >= *lo && *x <= *hi);
+            // the declared family of the state is the family of the group
+            if j["cell"]["family"].as_str() != Some(fam) {
+                in_range = false;
+            }
+        }
+        if !ok_score || !in_range {
+            failures.push(json!({"what": format!("initial state is not valid (score {:?}, parameters in range: {})", score, in_range),
+                "state": {"state": desc}}));
+        }
+    };
+    for gname in GROUPS.iter() {
+        let g = suites::group(gname);
+        for n in 3..=12usize {
+            let r = std::panic::catch_unwind(|| {
+                let st = PackedState::from_group(LineShape::polygon(n).ok()?, &g).ok()?;
+                Some((serde_json::to_value(&st).ok(), st.score()))
+            })
+            .ok()
+            .flatten();
+            judge(format!("{} hard polygon {}", gname, n), gname, r.as_ref().and_then(|x| x.0.clone()), r.map(|x| x.1));
+        }
+        let r = std::panic::catch_unwind(|| {
+            let st = PackedState::from_group(MolecularShape2::circle(), &g).ok()?;
+            Some((serde_json::to_value(&st).ok(), st.score()))
+        })
+        .ok()
+        .flatten();
+        judge(format!("{} hard circle", gname), gname, r.as_ref().and_then(|x| x.0.clone()), r.map(|x| x.1));
+        let r = std::panic::catch_unwind(|| {
+            let st = PotentialState::from_group(LJShape2::circle(), &g).ok()?;
+            Some((serde_json::to_value(&st).ok(), st.score()))
+        })
+        .ok()
+        .flatten();
+        judge(format!("{} lj circle", gname), gname, r.as_ref().and_then(|x| x.0.clone()), r.map(|x| x.1));
+        for radius in [0.2, 0.5, 0.637556, 1.0, 1.4].iter() {
+            for angle in [60., 90., 120., 180.].iter() {
+                for dist in [0.2, 0.6, 1.0, 2.0].iter() {
+                    let (radius, angle, dist) = (*radius, *angle, *dist);
+                    let g2 = suites::group(gname);
+                    let r = std::panic::catch_unwind(move || {
+                        let st = PackedState::from_group(MolecularShape2::from_trimer(radius, angle, dist), &g2).ok()?;
+                        Some((serde_json::to_value(&st).ok(), st.score()))
+                    })
+                    .ok()
+                    .flatten();
+                    judge(format!("{} hard trimer({}, {}, {})", gname, radius, angle, dist), gname,
+                          r.as_ref().and_then(|x| x.0.clone()), r.map(|x| x.1));
+                    let g3 = suites::group(gname);
+                    let r = std::panic::catch_unwind(move || {
+                        let st = PotentialState::from_group(LJShape2::from_trimer(radius, angle, dist), &g3).ok()?;
+                        Some((serde_json::to_value(&st).ok(), st.score()))
+                    })
+                    .ok()
+                    .flatten();
+                    judge(format!("{} lj trimer({}, {}, {})", gname, radius, angle, dist), gname,
+                          r.as_ref().and_then(|x| x.0.clone()), r.map(|x| x.1));
+                }
+            }
+        }
+    }
+    let res = json!({"initial_states_checked": checked, "failures": failures.len(),
+        "first_failures": failures.iter().take(10).collect::<Vec<_>>()});
+    let mut fo = fs::File::create(out).expect("out");
+    writeln!(fo, "{}", res).unwrap();
+}
